@@ -61,7 +61,7 @@ type c12Probe struct {
 	Debug bool // needs OptDebugger (breakpoints)
 }
 
-var c12Probes = []c12Probe{{"P1", false}, {"P2", false}, {"P3", false}, {"P4", false}, {"P5", false}, {"P6", true}, {"P7", false}, {"P8", false}}
+var c12Probes = []c12Probe{{"P1", false}, {"P2", false}, {"P3", false}, {"P4", false}, {"P5", false}, {"P6", true}, {"P7", false}, {"P8", false}, {"P9", false}}
 var c13Targets = []string{"L1", "L2", "L3", "L4", "L5", "L6", "L7", "L8"}
 
 const (
@@ -183,8 +183,10 @@ func (e *c12Env) battery() []string {
 
 var (
 	c12Once   sync.Once
-	c12Counts map[string][2]int // probe -> (statements, hook.Fault calls) in a fault-free run
-	c12Fresh  map[bool][]string // battery log of a fresh interpreter, by debugger option
+	c12Counts map[string][2]int   // probe -> (statements, hook.Fault calls) in a fault-free run
+	c12Fresh  map[bool][]string   // battery log of a fresh interpreter, by debugger option
+	c12RefLog map[string][]string // probe -> events of a fault-free run
+	c12RefEsc map[string]string   // probe -> how the fault-free run ended
 )
 
 // c12Init measures the probes fault-free and records the reference battery logs.
@@ -192,6 +194,8 @@ func c12Init() {
 	c12Once.Do(func() {
 		c12Counts = map[string][2]int{}
 		c12Fresh = map[bool][]string{}
+		c12RefLog = map[string][]string{}
+		c12RefEsc = map[string]string{}
 		for _, dbg := range []bool{false, true} {
 			e, lerr := newC12Env(dbg, true)
 			if lerr != "" {
@@ -205,9 +209,11 @@ func c12Init() {
 			hs.Stmt = func(env *fast.Env, pos token.Pos) { n++ }
 			ctx := &hook.Ctx{Ch: sim.NewReplay(0, nil).Stream("none")}
 			hook.Cur = ctx
-			e.call(entryEval, name+"()")
+			esc := e.call(entryEval, name+"()")
 			hs.Stmt = nil
+			c12RefEsc[name] = fmtPanic(esc)
 			c12Counts[name] = [2]int{n, ctx.NFault}
+			c12RefLog[name] = append([]string(nil), ctx.Log...)
 		}
 	})
 }
@@ -239,6 +245,10 @@ func c12Enumerate(tier string) [][]uint32 {
 						flags |= 1
 					}
 					out = append(out, []uint32{uint32(pi), uint32(mode), uint32(k), 0, uint32(en), flags, uint32((k + en) % 5)})
+					if mode == 1 && !p.Debug && en != entryDebug {
+						// the same compiled call runs a nested evaluation that panics and is recovered there
+						out = append(out, []uint32{uint32(pi), 1, uint32(k), 0, uint32(en), (flags &^ 1) | 8, 0})
+					}
 					if tier == "thorough" || (k+pi)%3 == 0 {
 						// the same point with an interrupt requested at the instant of the panic
 						out = append(out, []uint32{uint32(pi), uint32(mode), uint32(k), 0, uint32(en), flags | 4, uint32((k + en + 1) % 5)})
@@ -275,7 +285,7 @@ func init() {
 	register(&Prop{
 		ID:    "C12",
 		Level: "fault_enumeration",
-		Rule: "enumeration of (probe program, fault point): for each of 8 probe programs (nested calls and loops; defers that recover / modify named results / call deeper; closures; single-goroutine select; a program panic re-panicked by a deferred call; breakpoints under the debugger option; directly deferred compiled functions and builtins running while the function is already panicking) a panic is injected before EVERY executed statement k = 1..N (statement seam) and inside EVERY call of a compiled function j = 1..M, entered through Eval / Compile+RunExpr / ParseEvalPrint / DebugExpr with the debugger and trap-panic options varied; every third point (thorough: every point) is repeated with an interrupt requested at the instant the panic is raised; thorough adds all four entry paths per point and pairs (k, k+d), d = 1..12, where the second panic lands while the first is being handled. " +
+		Rule: "enumeration of (probe program, fault point): for each of 9 probe programs (nested calls and loops; defers that recover / modify named results / call deeper; closures; single-goroutine select; a program panic re-panicked by a deferred call; breakpoints under the debugger option; directly deferred compiled functions and builtins running while the function is already panicking; a long loop calling a compiled function) a panic is injected before EVERY executed statement k = 1..N (statement seam) and inside EVERY call of a compiled function j = 1..M, entered through Eval / Compile+RunExpr / ParseEvalPrint / DebugExpr with the debugger and trap-panic options varied; every compiled-call point is repeated with a NESTED evaluation that panics and is recovered by the compiled function (the probe must then finish undisturbed); every third point (thorough: every point) is repeated with an interrupt requested at the instant the panic is raised; thorough adds all four entry paths per point and pairs (k, k+d), d = 1..12, where the second panic lands while the first is being handled. " +
 			"non-trivial = the injected panic fired; distinct = distinct (probe, kind, k, k2, entry, options)",
 		Runs:      func(tier string) int { return 0 },
 		Enumerate: c12Enumerate,
@@ -286,7 +296,7 @@ func init() {
 			return 2 * time.Minute
 		},
 		Run:        runC12,
-		FaultKinds: []string{"panic_before_statement", "panic_inside_compiled_function", "second_panic_while_unwinding", "panic_escaped_evaluation", "panic_recovered_by_program", "panic_trapped_by_repl_path", "evaluation_aborted_after_statement_budget", "interrupt_requested_with_the_panic"},
+		FaultKinds: []string{"panic_before_statement", "panic_inside_compiled_function", "second_panic_while_unwinding", "panic_escaped_evaluation", "panic_recovered_by_program", "panic_trapped_by_repl_path", "evaluation_aborted_after_statement_budget", "interrupt_requested_with_the_panic", "nested_evaluation_aborted_inside_compiled_call"},
 		ProbeNames: []string{"entry_Eval", "entry_Compile+RunExpr", "entry_ParseEvalPrint", "entry_DebugExpr", "option_debugger", "option_trap_panic", "battery_events_compared"},
 		RealVsStub: []string{
 			"real: every line of the interpreter (executor, deferred restore, RunExpr/DebugExpr/ParseEvalPrint, prepareEnv); the battery and the probes are interpreted code",
@@ -303,10 +313,11 @@ func runC12(t *testing.T, ch *sim.Choices, tier string) (o Outcome) {
 	c12Init()
 	en := ch.Stream("enum")
 	pi, mode, k, k2 := en.Draw(len(c12Probes)), en.Draw(2), en.Draw(1<<20), en.Draw(1<<20)
-	entry, flags, vk := en.Draw(nEntries), en.Draw(8), en.Draw(5)
+	entry, flags, vk := en.Draw(nEntries), en.Draw(16), en.Draw(5)
 	p := c12Probes[pi]
 	debugger, trap := flags&1 != 0 || p.Debug || entry == entryDebug, flags&2 != 0
-	withInterrupt := flags&4 != 0 // an interrupt is requested at the instant the panic is raised
+	withInterrupt := flags&4 != 0       // an interrupt is requested at the instant the panic is raised
+	nested := flags&8 != 0 && mode == 1 // the panic aborts an evaluation NESTED in the probe's (started and recovered by the compiled function): the probe itself goes on
 	e, lerr := newC12Env(debugger, trap)
 	if lerr != "" {
 		o.fail("interp-error", "c12p|load", lerr)
@@ -355,6 +366,13 @@ func runC12(t *testing.T, ch *sim.Choices, tier string) (o Outcome) {
 		ctx.FaultFn = func(site string) {
 			if ctx.NFault == k {
 				fired++
+				if nested {
+					func() {
+						defer func() { recover() }()
+						e.ir.Eval("{\n\ty := 1\n\t_ = y\n\tpanic(\"nested evaluation\")\n}")
+					}()
+					return
+				}
 				if withInterrupt {
 					e.ir.Interrupt(os.Interrupt)
 				}
@@ -397,6 +415,18 @@ func runC12(t *testing.T, ch *sim.Choices, tier string) (o Outcome) {
 		o.fault("panic_trapped_by_repl_path", 1)
 	case fired > 0:
 		o.fault("panic_recovered_by_program", 1)
+	}
+	if nested && fired > 0 {
+		o.fault("nested_evaluation_aborted_inside_compiled_call", 1)
+		// the outer evaluation was not aborted: it must finish exactly as if undisturbed
+		if fmtPanic(esc) != c12RefEsc[p.Name] || exceeded {
+			o.fail("nested-abort-disturbs-outer", normKey("c12", p.Name, "escaped"), fmt.Sprintf("probe %s: a nested evaluation started by compiled call %d panicked and was recovered by the compiled function; the outer evaluation then ended with %s, undisturbed it ends with %s\noutput: %s", p.Name, k, fmtPanic(esc), c12RefEsc[p.Name], tailStr(e.out.String(), 600)))
+			return
+		}
+		if i, x, y := firstDiff(ctx.Log, c12RefLog[p.Name]); i >= 0 {
+			o.fail("nested-abort-disturbs-outer", normKey("c12", p.Name, stripDigits(x), stripDigits(y)), fmt.Sprintf("probe %s: after the nested evaluation started by compiled call %d was aborted, event #%d of the outer evaluation is %q, undisturbed %q", p.Name, k, i, x, y))
+			return
+		}
 	}
 	// --- the battery, against the fresh interpreter
 	got := e.battery()
